@@ -61,7 +61,7 @@ def shard_fn(shard, nshards, seed, tier, exe, ndocs, nenum):
             toks, _ = tg.tree()
             if toks == ["n"]:
                 toks = ["[", "n", "]"]
-        flags = rng.choice([0, 1, 2, 3, 4, 10, 16, 18, 31])
+        flags = rng.choice([0, 1, 2, 3, 4, 10, 16, 18, 31]) if rng.random() < 0.5 else rng.randrange(64)   # (bit 32 is COLOR: escape sequences in the text, which a file must carry like any other byte)
         cmds = ["B 0 " + " ".join(toks)]
         plan = []
         for _ in range(3):
